@@ -198,6 +198,10 @@ func C01real(r *ev.Report) {
 func init() {
 	Parts["C01real"] = Part{"C01", C01real}
 	Replayers["C01"] = func(c Case) (bool, string) {
+		if c["op"] == "persist" {
+			return Replayers["C10"](c)
+		}
+
 		rep := repFromCase("p", c)
 
 		if c["op"] == "chain" {
